@@ -33,6 +33,8 @@ func Main(args []string) int {
 		return cmdKnown(args[1:])
 	case "warmup":
 		return cmdWarmup(args[1:])
+	case "axioms":
+		return cmdAxioms(args[1:])
 	}
 	fmt.Fprintln(os.Stderr, "unknown command", args[0])
 	return 2
